@@ -2,6 +2,7 @@ import VaxisModel.Driver.Common
 import VaxisModel.Model.Sgr
 import VaxisModel.Model.SgrBytes
 import VaxisModel.Model.SgrLinks
+import VaxisModel.Model.SgrReader
 
 /-! Driver for C18 (stateless; one output line per input line).
 
@@ -231,6 +232,17 @@ def stepEncB (which : String) (caps : Nat) (cells : List (Cell G)) (impl : Strin
              else if which = "ss" then hexOfRunes (VaxisModel.Model.SgrBytes.ssEncodeB (bit caps 2) cs) else "bad-op"
     s!"{m}\t{impl}\t{if impl = "panic" then "FAIL panic" else "ok"}"
 
+/-- ParserIO's oracle is indexed by the byte offset of the rune that starts the cluster: the uniseg table (one entry per rune)
+    re-indexed by the UTF-8 offsets of the runes. -/
+def clusterAtOf (tb : List Nat) (rs : List Nat) : Nat → Nat :=
+  let rec go : List Nat → List Nat → Nat → List (Nat × Nat)
+    | [], _, _ => []
+    | r :: w, tb, pos => (pos, tb.headD 1) :: go w (tb.drop 1) (pos + (VaxisModel.Model.ParserUtf8.encodeRune r).length)
+  let tab := go rs tb 0
+  fun pos => match tab.find? (fun p => p.1 == pos) with
+    | some p => p.2
+    | none => 1
+
 def stepDecB (which : String) (dflt : Style) (h : String) (table : String) (impl : String) : String :=
   match runesOfHex? h, (if table = "-" then some [] else commaNats? table) with
   | some rs, some tb =>
@@ -239,6 +251,13 @@ def stepDecB (which : String) (dflt : Style) (h : String) (table : String) (impl
     let m := if which = "cells" then exStr (fun cs => cellsStr (cs.map cellOfB)) (VaxisModel.Model.SgrBytes.parseStyledB cl rs)
              else if which = "ss" then exStr (fun cs => cellsStr (cs.map cellOfB)) (VaxisModel.Model.SgrBytes.newStyledStringB cl dflt rs)
              else "bad-op"
+    -- the same string through the reader model (ParserIO: bufio fill loop, UTF-8 decoding, print's look-ahead over the buffer; one
+    -- read, as ParseStyledString does since the F122 repair): must give what the oracle model gives (`Props.C18Reader.parseStyledIO_eq`)
+    let m := if which = "cells" && n ≤ 700 then
+               let m2 := exStr (fun cs => cellsStr (cs.map cellOfB))
+                 (VaxisModel.Model.SgrReader.parseStyledIO (clusterAtOf tb rs) (VaxisModel.Model.SgrReader.utf8 rs))
+               if m2 = m then m else s!"READER-MODEL-DIFFERS {m2} / {m}"
+             else m
     s!"{m}\t{impl}\t{if impl = "panic" then "FAIL panic" else "ok"}"
   | _, _ => "bad-op\tbad-op\tbad-op"
 
